@@ -334,7 +334,8 @@ def worker(case: Dict[str, Any]) -> CaseResult:
                                     sets.setdefault("abstract_runtime_types", []).append("%s->%s" % (at, u))
                     if "C05" in props and status == "ok" and wi in (0, 1, 3):
                         c05_checks(case, replay_case, feats, value, data, world, rpaths, schema_ref, pkg, cfg, rng, violations, count, op_name, thorough,
-                                   fragment_names=[d.name.value for d in authored.definitions if not isinstance(d, OperationDefinitionNode)])
+                                   fragment_names=[d.name.value for d in authored.definitions if not isinstance(d, OperationDefinitionNode)],
+                                   authored_doc=authored, opnode=opnode)
             if tracer is not None and tracer.open_spans():
                 violations.append(Violation("C01", "spans-closed", repr(tracer.open_spans())[:200], feats, replay_case, mech="c01:spans-closed"))
     status = "violated" if violations else "held"
@@ -378,13 +379,15 @@ def obj_at(value, path):
     return cur
 
 
-def c05_checks(case, replay_case, feats, value, data, world, rpaths, schema_ref, pkg, cfg, rng, violations, count, op_name, thorough, fragment_names=()):
+def c05_checks(case, replay_case, feats, value, data, world, rpaths, schema_ref, pkg, cfg, rng, violations, count, op_name, thorough, fragment_names=(),
+               authored_doc=None, opnode=None):
     from graphql import GraphQLScalarType
     from pydantic import ValidationError
 
     model_cls = type(value)
     custom_any = {n for n, t in schema_ref.type_map.items() if isinstance(t, GraphQLScalarType) and n not in oracles.BUILTIN}
-    for kind, path, corrupted in oracles.corruptions(data, world.types, rpaths, custom_any, 40 if thorough else 16, rng):
+    static_types = oracles.static_field_types(authored_doc, opnode, schema_ref) if authored_doc is not None else None
+    for kind, path, corrupted in oracles.corruptions(data, world.types, rpaths, custom_any, 40 if thorough else 16, rng, static_types):
         count("c05.corruptions")
         count("c05.kind." + kind)
         try:
@@ -432,7 +435,8 @@ def c05_checks(case, replay_case, feats, value, data, world, rpaths, schema_ref,
                 seen.add(key)
                 t = world.types.get(p)
                 info = rpaths.get(oracles.key_path(p))
-                if t is not None and info is not None and info["count"] == 1:
+                st_ = (static_types or {}).get(oracles.key_path(p))
+                if t is not None and info is not None and info["count"] == 1 and (static_types is None or st_ == {str(t)}):
                     conditional = info["field_directive"]
                     try:
                         hints = typing.get_type_hints(type(obj), include_extras=True)
